@@ -220,6 +220,30 @@ def record(run):
             mute["on"] = False
             handler.events[:] = []
 
+    def configured(cls, metric, **params):
+        """every third estimator is first built with OTHER stopping parameters and then given the real ones through
+        the public attributes / set_params, as a caller re-using a prototype (clone + set_params) would; fit must obey
+        the parameters the object reports, not the ones it was born with"""
+        sel = (n + (run["k"] or 0) + run.get("sweeps", 0) + len(params)) % 6
+        if sel not in (1, 4):
+            return cls(metric, **params)
+        decoy = dict(params)
+        for name, v in params.items():
+            if name == "n_clusters":
+                decoy[name] = (v or 0) + 2
+            elif name == "cluster_radius":
+                decoy[name] = (v if v is not None else 0.0) * 2 + 1.0
+            elif name in ("n_iters", "kmedoids_updates"):
+                decoy[name] = v + 1
+        est = cls(metric, **decoy)
+        changed = {k_: v for k_, v in params.items() if k_ != "random_state"}
+        if sel == 1:
+            for k_, v in changed.items():
+                setattr(est, k_, v)
+        else:
+            est.set_params(**changed)
+        return est
+
     def fitted(est):
         """the estimator's own view of its result (attributes), not the result_ tuple"""
         from enspara.cluster.util import ClusterResult
@@ -244,7 +268,7 @@ def record(run):
             init = watch("init_centers", init)
         if algo == "kcenters":
             if form == "estimator":
-                est = KCenters(m, n_clusters=kk, cluster_radius=cutf)
+                est = configured(KCenters, m, n_clusters=kk, cluster_radius=cutf)
                 used_before(est)
                 est.fit(X, init_centers=init) if init is not None else est.fit(X)
                 return fitted(est)
@@ -272,7 +296,7 @@ def record(run):
             else:
                 kw.update(n_clusters=kk)
             if form == "estimator":
-                est = KMedoids(m, n_clusters=kk, n_iters=run["sweeps"])
+                est = configured(KMedoids, m, n_clusters=kk, n_iters=run["sweeps"])
                 used_before(est)
                 est.fit(X, **{k_: v for k_, v in kw.items() if k_ != "n_clusters"})
                 return fitted(est)
@@ -281,8 +305,8 @@ def record(run):
             return km_mod.kmedoids(X, m, n_iters=run["sweeps"], random_state=run.get("seed"), **kw)
         if algo == "hybrid":
             if form == "estimator":
-                est = KHybrid(m, n_clusters=kk, cluster_radius=cutf, kmedoids_updates=run["sweeps"],
-                              random_state=run.get("seed"))
+                est = configured(KHybrid, m, n_clusters=kk, cluster_radius=cutf, kmedoids_updates=run["sweeps"],
+                                 random_state=run.get("seed"))
                 used_before(est)
                 est.fit(X, init_centers=init) if init is not None else est.fit(X)
                 return fitted(est)
